@@ -1,0 +1,18 @@
+//go:build verif
+
+package grpcutil
+
+// Contracts for the deductive verifier in /verif (comment-only file; no code).
+
+//@ spec escByte(c int) bool = c < 32 || c > 126 || c == 37
+
+//@ func ShouldEscapeByteInMessage
+//@   pure
+//@   ensures result == escByte(char)
+
+//@ func PercentEncodeMessage
+//@   ensures forall i int :: 0 <= i && i < len(result) ==> result[i] >= 32 && result[i] <= 126
+//@   loop 0: invariant 0 <= i && i < len(msg) && 0 <= hexCount && hexCount <= i
+//@           invariant hexCount == 0 ==> forall k int :: 0 <= k && k < i ==> !escByte(msg[k])
+//@   loop 1: invariant 0 <= i && i < len(msg)
+//@           invariant forall k int :: 0 <= k && k < len(sbContent[out]) ==> sbContent[out][k] >= 32 && sbContent[out][k] <= 126
